@@ -25,6 +25,14 @@ def clamp(theta, spec):
     return np.minimum(np.maximum(theta, spec.mins), spec.maxs)
 
 
+def band(theta, err, scale):
+    """':cutoff-band' when the deviation is what the library's exponential does by design to a joint angle strictly inside (0, 1e-6):
+    MatrixExp6 snaps such a rotation to the identity (NearZero), which moves the tool by at most |theta_i| * reach"""
+    th = np.abs(np.asarray(theta, dtype=float).reshape(-1))
+    b = th[(th > 0) & (th < 1e-6)]
+    return ':cutoff-band' if len(b) and err <= 4.0 * float(b.sum()) * max(1.0, scale) else ''
+
+
 class Tracker:
     """independent bookkeeping of what the property says the arm's state must be"""
 
@@ -50,14 +58,14 @@ def check_state(arm, tr, where):
     if np.max(np.abs(arm.getBasePos().gTM() - tr.base)) > TOL:
         out.append(('state:base', 'after %s: reported base pose differs from the base the arm was moved to by %.3g' % (where, G.maxdiff(arm.getBasePos().gTM(), tr.base))))
     if np.max(np.abs(ee - want)) > TOL * max(1.0, np.max(np.abs(want))):
-        out.append(('state:ee', 'after %s: reported tool pose differs from base*prod(exp)*home at the stored joint vector by %.3g' % (where, G.maxdiff(ee, want))))
+        out.append(('state:ee' + band(tr.theta, G.maxdiff(ee, want), np.max(np.abs(want))), 'after %s: reported tool pose differs from base*prod(exp)*home at the stored joint vector by %.3g' % (where, G.maxdiff(ee, want))))
     th_arm = np.asarray(arm._theta, dtype=float).reshape(-1)
     impl = tr.spec.fk(tr.base, tr.M, clamp(th_arm, tr.spec))
     impl_raw = tr.spec.fk(tr.base, tr.M, th_arm)
     if np.max(np.abs(ee - impl_raw)) <= TOL * max(1.0, np.max(np.abs(impl_raw))):
         impl = impl_raw
     if np.max(np.abs(ee - impl)) > TOL * max(1.0, np.max(np.abs(impl))):
-        out.append(('state:ee-vs-theta', 'after %s: reported tool pose differs from the pose implied by the stored joint state by %.3g' % (where, G.maxdiff(ee, impl))))
+        out.append(('state:ee-vs-theta' + band(th_arm, G.maxdiff(ee, impl), np.max(np.abs(impl))), 'after %s: reported tool pose differs from the pose implied by the stored joint state by %.3g' % (where, G.maxdiff(ee, impl))))
     try:
         with contextlib.redirect_stdout(io.StringIO()):
             jt = arm.getJointTransforms()
@@ -65,7 +73,7 @@ def check_state(arm, tr, where):
             out.append(('state:joint0', 'after %s: first joint-frame pose is not the base pose' % where))
         inside = bool(np.all(th_arm >= tr.spec.mins - 1e-12) and np.all(th_arm <= tr.spec.maxs + 1e-12))   # only the limit-free solver can leave the state outside the limits; queries then clamp by design
         if inside and np.max(np.abs(jt[-1].gTM() - ee)) > TOL * max(1.0, np.max(np.abs(ee))):
-            out.append(('state:joint-last', 'after %s: last joint-frame pose differs from the reported tool pose by %.3g' % (where, G.maxdiff(jt[-1].gTM(), ee))))
+            out.append(('state:joint-last' + band(th_arm, G.maxdiff(jt[-1].gTM(), ee), np.max(np.abs(ee))), 'after %s: last joint-frame pose differs from the reported tool pose by %.3g' % (where, G.maxdiff(jt[-1].gTM(), ee))))
         J0 = arm.jacobian(); J1 = arm.jacobian(th_arm.copy())
         if np.max(np.abs(J0 - J1)) > TOL:
             out.append(('state:default-jacobian', 'after %s: jacobian() with defaulted argument does not refer to the stored state' % where))
@@ -92,7 +100,7 @@ def apply(arm, tr, op, rnd):
             tr.theta = clamp(th, tr.spec)
             want = tr.fk(th)
             if np.max(np.abs(T - want)) > TOL * max(1.0, np.max(np.abs(want))):
-                out.append(('fk', 'FK(theta) differs from base*prod(exp(S_i theta_i))*home (theta clamped to the limits) by %.3g' % G.maxdiff(T, want)))
+                out.append(('fk' + band(clamp(th, tr.spec), G.maxdiff(T, want), np.max(np.abs(want))), 'FK(theta) differs from base*prod(exp(S_i theta_i))*home (theta clamped to the limits) by %.3g' % G.maxdiff(T, want)))
         elif k in ('IK', 'IKfree'):
             goal = tr.fk(np.array(op[1], dtype=float))
             th0 = np.array(op[2], dtype=float)
@@ -199,15 +207,19 @@ def run_history(cfg):
 def make_cfgs(rnd, n):
     cfgs = []
     for i in range(n):
-        arm = rnd.choice(['six_r', 'six_r', 'chain', 'chain'])
+        arm = rnd.choice(['six_r', 'six_r', 'chain', 'chain', 'chain', 'urdf:' + rnd.choice(armh.URDFS)])
         base6 = [0.0] * 6 if rnd.random() < 0.4 else list(np.concatenate([G.translation(rnd, 2.0), G.rotvec(rnd, rnd.choice(['one', 'generic', 'half_pi']))[0]]))
         seed = rnd.randrange(1 << 30)
         r2 = random.Random(seed)
         try:
             _, spec = None, None
-            S, M, homes, axes = (armh.six_r() if arm == 'six_r' else armh.random_chain(random.Random(seed)))
             class _S: pass
-            sp = _S(); sp.n = S.shape[1]
+            sp = _S()
+            if arm.startswith('urdf:'):
+                sp.n = 6
+            else:
+                S, M, homes, axes = (armh.six_r() if arm == 'six_r' else armh.random_chain(random.Random(seed)))
+                sp.n = S.shape[1]
         except Exception:
             continue
         ops = rand_history(r2, sp, rnd.randint(1, 10))
